@@ -1486,6 +1486,11 @@ Definition s_create (w : sworld) (s fmt : Z) : sworld * list Z :=
     end
   end.
 
+(* the per-variable fill mode is not part of the file header: a decoded variable has the default *)
+Definition norm_var (v : var) : var := mkvar (v_name v) (v_dimids v) (v_atts v) (v_type v) (v_begin v) true.
+Definition norm_hdr (h : hdr) : hdr :=
+  mkhdr (h_format h) (h_numrecs h) (h_dims h) (h_gatts h) (map norm_var (h_vars h)).
+
 (* open reads the file through the format-specification decoder *)
 Definition s_open (w : sworld) (s mode : Z) : sworld * list Z :=
   match slot_get w s with
@@ -1500,7 +1505,7 @@ Definition s_open (w : sworld) (s mode : Z) : sworld * list Z :=
         match decode d with
         | None => (w, [NC_ENOTNC])
         | Some dc => (set_nth (Z.to_nat s) w
-                              (mksslot (Some d) (Some (mksfile (dc_hdr dc) None false (mode =? 0)))),
+                              (mksslot (Some d) (Some (mksfile (norm_hdr (dc_hdr dc)) None false (mode =? 0)))),
                       [NC_NOERR])
         end
       end
